@@ -44,6 +44,10 @@ T("T-sep-short", [N(8), "T", N(2)])
 T("T-sep-odd", [N(8), "T", N(3)])
 T("T-sep-frac", [N(8), "T", N(6), ".", N(3)])
 T("four-numbers", [N(2), " ", N(2), " ", N(2), " ", N(2)])
+T("five-numbers", [N(2), " ", N(2), " ", N(2), " ", N(2), " ", N(2)])
+T("four-single", [N(1), " ", N(1), " ", N(1), " ", N(1)])
+T("four-slash", [N(2), "/", N(2), "/", N(2), "/", N(2)])
+T("month-and-three", ["Jan ", N(2), " ", N(2), " ", N(3)])
 T("time-then-date", [N(2), ":", N(2), " ", N(2), "/", N(2), "/", N(4)])
 T("ampm-after-minutes", ["10:", N(2), " pm"])
 T("two-ampm", [N(2), " am pm"])
@@ -115,11 +119,13 @@ def h_nontext():
     def fn(ctx, i):
         ctx.assume(S.within(i, 0, len(cands) - 1))
         v = cands[ctx.concrete(i)]
+        if ctx.symbolic:
+            return None          # all inputs are pinned: the check itself runs in the native replay of this path's witness
         with ctx.untraced():
             try:
                 P.parse(v)
             except TypeError:
-                return "TypeError"
+                return None
             except Exception as e:
                 ctx.fail("non-text input %r raised %s instead of TypeError" % (type(v).__name__, type(e).__name__), key="nontext-%s-%s" % (type(v).__name__, type(e).__name__))
             ctx.fail("non-text input %r accepted" % (type(v).__name__,), key="nontext-%s-accepted" % type(v).__name__)
